@@ -110,6 +110,8 @@ type Run struct {
 	Results    []OpResult
 	Ops        []Op
 	Poisoned   bool // a panic escaped from godi: stop using this provider
+	kept       []keptSlice // group slices returned by godi that the harness kept untouched
+	sliceFs    []Finding   // kept slices that changed afterwards
 	KeepValues bool
 	Values     map[int]*rt.Inst // instance values registered (reg index -> inst)
 }
@@ -484,7 +486,26 @@ func (r *Run) Do(o Op) OpResult {
 				for _, v := range vals {
 					res.Insts = append(res.Insts, rt.InstOf(v))
 				}
+				if !o.Generic && !r.KeepValues {
+					// the returned slice belongs to the caller. Alternately the harness behaves
+					// like a caller that modifies it (in-place filter: later results must not
+					// change) and like one that keeps it (it must still hold what was returned
+					// when later resolutions have run)
+					r.mu.Lock()
+					if opIdx%2 == 0 {
+						for i := range vals {
+							vals[i] = nil
+						}
+						if cap(vals) > len(vals) {
+							_ = append(vals, nil)
+						}
+					} else {
+						r.kept = append(r.kept, keptSlice{op: opIdx, text: o.String(), vals: vals, insts: append([]*rt.Inst(nil), res.Insts...)})
+					}
+					r.mu.Unlock()
+				}
 			}
+			r.verifyKept(opIdx)
 			if r.KeepValues {
 				if o.Kind == OpGetGroup {
 					res.Value = vals
@@ -496,6 +517,41 @@ func (r *Run) Do(o Op) OpResult {
 	}
 	res.Ret = r.Rec.EndOp(opIdx, o.Scope, res.Class)
 	return store()
+}
+
+type keptSlice struct {
+	op    int
+	text  string
+	vals  []any
+	insts []*rt.Inst
+	bad   bool
+}
+
+// verifyKept checks, after operation now, that every group slice the harness kept still holds
+// the instances godi returned in it.
+func (r *Run) verifyKept(now int) {
+	r.mu.Lock()
+	defer r.mu.Unlock()
+	for k := range r.kept {
+		ks := &r.kept[k]
+		if ks.bad || ks.op == now {
+			continue
+		}
+		for i, v := range ks.vals {
+			if i < len(ks.insts) && rt.InstOf(v) != ks.insts[i] {
+				ks.bad = true
+				r.sliceFs = append(r.sliceFs, Finding{"returned-group-slice-changed", "", fmt.Sprintf("the slice returned by op%d %s was kept by the caller untouched; after op%d its element %d is no longer the instance that was returned in it (another resolution wrote into memory that belongs to the caller)", ks.op, ks.text, now, i)})
+				break
+			}
+		}
+	}
+}
+
+// SliceFindings: kept group slices that changed behind the caller's back.
+func (r *Run) SliceFindings() []Finding {
+	r.mu.Lock()
+	defer r.mu.Unlock()
+	return append([]Finding(nil), r.sliceFs...)
 }
 
 func (r *Run) markClosed(scope int) {
